@@ -10,6 +10,7 @@ CONSTANTS
   Lag = 0
   MaxFaults = 1
   MaxPolls = 1
+  MaxRestarts = 0
   FixH13 = TRUE
   FixRevertVerify = FALSE
   FixUnderflow = TRUE
